@@ -47,8 +47,25 @@ BAD = {
 }
 
 
+def _free_name(rng, n):
+    """a section name nobody declared: mostly plain, sometimes with cased non-ASCII letters (lower-casing is not case folding:
+    'Straße' stays 'straße', and it is not ASCII-only: 'KÜCHE' becomes 'küche')"""
+    return rng.choice(["n%d", "n%d", "n%d", "N%d", "Stra\u00dfe%d", "K\u00dcCHE%d", "\u0414\u043e\u043c%d", "\u00c9cole-%d"]) % n
+
+
+def _up(c):
+    """the upper-case spelling of one character when that is a pure change of letter case (lower-cases back to the same
+    text: not for 'ß' -> 'SS', final sigma, dotted capital I ...), else the character itself"""
+    u = c.upper()
+    return u if (len(u) == 1 and u.lower() == c.lower()) else c
+
+
+def _upper(s):
+    return "".join(_up(c) for c in s)
+
+
 def _case_variant(rng, s):
-    return "".join(c.upper() if rng.random() < 0.3 else c.lower() if rng.random() < 0.3 else c for c in s)
+    return "".join(_up(c) if rng.random() < 0.3 else c.lower() if (rng.random() < 0.3 and len(c.lower()) == 1) else c for c in s)
 
 
 def gen_schema(rng, handlers=False, rich=True):
@@ -259,9 +276,9 @@ def gen_items(rng, elab, tyname, depth, pfill=0.75):
             for _ in range(rng.randint(1, 3) if multi else 1):
                 t = rng.choice(impls)
                 if name == "*":
-                    nm = rng.choice([None, "n%d" % len(usednames)])
+                    nm = rng.choice([None, _free_name(rng, len(usednames))])
                 elif name == "+":
-                    nm = "n%d" % len(usednames)
+                    nm = _free_name(rng, len(usednames))
                 else:
                     nm = name
                 if nm and nm.lower() in usednames:
@@ -373,7 +390,7 @@ def _apply_fault_at(rng, elab, cont, tyname, fault):
         if not ss:
             return None
         s = rng.choice(ss)
-        cont.insert(pos, sect(s[1], s[2].upper(), [], True))
+        cont.insert(pos, sect(s[1], _upper(s[2]), [], True))
     elif fault == "unknown-type":
         cont.insert(pos, sect("nosuchtype", rng.choice([None, "x"]), [], rng.random() < 0.5))
     elif fault == "abstract-type":
